@@ -42,9 +42,22 @@ def vec_target(r):
 # ----------------------------------------------------------------------------
 # Vec
 # ----------------------------------------------------------------------------
-@I.rx(r'^(std::vec::)?Vec::new$|^(std::vec::)?Vec::with_capacity$|^<(std::vec::)?Vec as Default>::default$')
+@I.rx(r'^(std::vec::)?Vec::new$|^<(std::vec::)?Vec as Default>::default$')
 def _vec_new(m, args, ci):
     return Seq([], 'vec')
+
+@I.rx(r'^(std::vec::)?Vec::with_capacity$|^(std::string::)?String::with_capacity$')
+def _vec_with_capacity(m, args, ci):
+    """Panics with "capacity overflow" when capacity * size_of::<T>() exceeds isize::MAX; size_of::<T>() >= 1 is all that
+    is used here (zero-sized element types do not occur in the crate), so the modelled panic condition is a subset of
+    the real one.  Allocation failure (abort) for large but representable sizes is not modelled."""
+    n = args[0] if args else 0
+    if isinstance(n, T):
+        if m.branch(sym.gt(n, 2 ** 63 - 1), 'with_capacity.overflow'):
+            raise Panic('capacity overflow')
+    elif n > 2 ** 63 - 1:
+        raise Panic('capacity overflow')
+    return Seq([], 'str' if 'String' in ci.name else 'vec')
 
 @I.add('std::boxed::box_assume_init_into_vec_unsafe', 'alloc::boxed::box_assume_init_into_vec_unsafe')
 def _box_into_vec(m, args, ci):
@@ -82,6 +95,19 @@ def _vec_len(m, args, ci):
 def _vec_is_empty(m, args, ci):
     s, a, b = seq_of(args[0])
     return b - a == 0
+
+@I.rx(r'^(std::string::|alloc::string::)?String::(is_empty|len)$|^(core::str::|std::str::)?<impl str>::(is_empty|len)$|^str::(is_empty|len)$')
+def _str_len(m, args, ci):
+    """Concrete strings: their length.  Abstract strings (contents stand for a tag): the length is an uninterpreted
+    function of the tag, >= 0 -- so emptiness is a solver decision, consistent for one tag."""
+    s, a, b = seq_of(args[0])
+    want_len = ci.name.endswith('len')
+    if s.tag is None or s.items:
+        return (b - a) if want_len else (b - a == 0)
+    t = s.tag if isinstance(s.tag, T) else sym.var('strtag!' + repr(s.tag))
+    ln = sym.uf('strlen', 'I', t)
+    m.pc.append(sym.ge(ln, 0))
+    return ln if want_len else sym.eq(ln, 0)
 
 @I.rx(r'^(std::vec::)?Vec::remove$')
 def _vec_remove(m, args, ci):
@@ -898,6 +924,76 @@ def _dur_cmp(m, args, ci):
     a, b = dur_ns(args[0]), dur_ns(args[1])
     f = {'lt': sym.lt, 'le': sym.le, 'gt': sym.gt, 'ge': sym.ge, 'eq': sym.eq, 'ne': sym.ne}[ci.name[-2:]]
     return f(a, b)
+
+DUR_MAX = (2 ** 64 - 1) * NANOS + 999999999
+SYSTIME_MAX = (2 ** 63 - 1) * NANOS + 999999999       # i64 seconds on this platform
+
+@I.rx(r'^<((std|core)::time::)?Duration as (std::ops::|core::ops::)?(Add|Sub)>::(add|sub)$')
+def _dur_addsub(m, args, ci):
+    a, b = dur_ns(args[0]), dur_ns(args[1])
+    if ci.name.endswith('add'):
+        r = sym.add(a, b)
+        if m.branch(sym.gt(r, DUR_MAX), 'Duration::add.overflow'):
+            raise Panic('overflow when adding durations')
+        return dur(r)
+    if m.branch(sym.lt(a, b), 'Duration::sub.overflow'):
+        raise Panic('overflow when subtracting durations')
+    return dur(sym.sub(a, b))
+
+@I.rx(r'(^|::)Duration::checked_add$')
+def _dur_checked_add(m, args, ci):
+    a, b = dur_ns(args[0]), dur_ns(args[1])
+    r = sym.add(a, b)
+    if m.branch(sym.gt(r, DUR_MAX), 'Duration::checked_add'):
+        return none()
+    return some(dur(r))
+
+@I.const_rx(r'(^|::)Duration::(ZERO|MAX)$')
+def _dur_consts(m, raw, name):
+    return dur(0 if name.endswith('ZERO') else DUR_MAX)
+
+@I.rx(r'^<((std|core)::time::)?SystemTime as (std::ops::|core::ops::)?(Add|Sub)>::(add|sub)$')
+def _systime_addsub(m, args, ci):
+    a = deref_val(args[0]) if isinstance(args[0], Ref) else args[0]
+    an, d = a.fields[0], dur_ns(args[1])
+    if ci.name.endswith('add'):
+        r = sym.add(an, d)
+        if m.branch(sym.gt(r, SYSTIME_MAX), 'SystemTime::add.overflow'):
+            raise Panic('overflow when adding duration to instant')
+    else:
+        r = sym.sub(an, d)
+        if m.branch(sym.lt(r, -(2 ** 63) * NANOS), 'SystemTime::sub.overflow'):
+            raise Panic('overflow when subtracting duration from instant')
+    return Adt('std::time::SystemTime', None, {0: r})
+
+@I.rx(r'(^|::)SystemTime::(checked_add|checked_sub)$')
+def _systime_checked(m, args, ci):
+    a = deref_val(args[0]) if isinstance(args[0], Ref) else args[0]
+    an, d = a.fields[0], dur_ns(args[1])
+    if ci.name.endswith('checked_add'):
+        r = sym.add(an, d)
+        if m.branch(sym.gt(r, SYSTIME_MAX), 'SystemTime::checked_add'):
+            return none()
+    else:
+        r = sym.sub(an, d)
+        if m.branch(sym.lt(r, -(2 ** 63) * NANOS), 'SystemTime::checked_sub'):
+            return none()
+    return some(Adt('std::time::SystemTime', None, {0: r}))
+
+@I.rx(r'(^|::)SystemTime::elapsed$')
+def _systime_elapsed(m, args, ci):
+    a = deref_val(args[0]) if isinstance(args[0], Ref) else args[0]
+    now = m.env.now_ns(m)
+    if m.branch(sym.lt(now, a.fields[0]), 'SystemTime::elapsed'):
+        return err(Opaque('SystemTimeError'))
+    return ok(dur(sym.sub(now, a.fields[0])))
+
+@I.rx(r'^<((std|core)::time::)?SystemTime as (PartialOrd|Ord|PartialEq)>::(lt|le|gt|ge|eq|ne)$')
+def _systime_cmp(m, args, ci):
+    a = deref_val(args[0]) if isinstance(args[0], Ref) else args[0]
+    b = deref_val(args[1]) if isinstance(args[1], Ref) else args[1]
+    f = {'lt': sym.lt, 'le': sym.le, 'gt': sym.gt, 'ge': sym.ge, 'eq': sym.eq, 'ne': sym.ne}[ci.name[-2:]]
+    return f(a.fields[0], b.fields[0])
 
 @I.rx(r'(^|::)SystemTime::now$')
 def _systime_now(m, args, ci):
